@@ -36,6 +36,11 @@ CHECKS = {
          'Held on the full matrix of 36 credential configurations x 6 declared auth types x ~36 header shapes x 3 mode variants (about 25k decided probes) plus lockout histories: no request lacking a configured credential got a 2xx/3xx, a body marker or a side effect; canonical credentials were accepted while not locked out; open routes were unaffected; one client could not lock out another through forged forwarding headers.',
          'Trusts the classification of header shapes in c06.go (a request "carries" a credential only if a header value contains it as a whitespace-delimited whole). Real JWT validation does not exist in the tree: the secret is compared as a bearer token.',
          'DESIGN.md §3 C06'),
+ 'C07': ('exploration',
+         'reference conformance monitor: generated type definitions with conforming-by-construction documents and single-fault mutants, typed query strings and return literals, echoed by marker-carrying route bodies and observed at the HTTP boundary in both execution modes',
+         'Held (apart from the listed known findings) on N generated types x ~25 documents/queries/return literals each x both modes: clear violations were answered 4xx (5xx for return values) without running the body, conforming requests ran with exactly the declared defaults applied to absent fields.',
+         'Trusts the reference notion of "clear" conformance in c07.go (extra fields, int-for-float and null for optional fields are never asserted). Three recorded findings are quarantined by signature (body not an object; compiled mode applies no defaults; compiled mode checks no return type).',
+         'DESIGN.md §3 C07'),
 }
 NA = {}
 for p in props:
